@@ -78,7 +78,9 @@ enum Ev {
     ConnCall { src: usize, dst: usize, id: u64 },
     ConnRet { id: u64, ok: bool, kind: String },
     DataSent { src: usize, dst: usize, id: u64 },
+    FinSent { src: usize, dst: usize, id: u64 },
     TcpRecv { id: u64 },
+    TcpEof { id: u64 },
     /// snapshot of Sim::links taken between steps, before controller actions
     Links { udp: Vec<(usize, usize, u64)>, tcp_data: Vec<u64>, syns: Vec<(usize, usize)>, other: u32 },
 }
@@ -137,10 +139,13 @@ async fn host_program(log: Log<Ev>, me: usize, s: Scn) -> turmoil::Result {
                 tokio::task::spawn_local(async move {
                     let mut b = [0u8; 8];
                     if st.read_exact(&mut b).await.is_ok() {
-                        log.push(Ev::TcpRecv { id: u64::from_le_bytes(b) });
+                        let id = u64::from_le_bytes(b);
+                        log.push(Ev::TcpRecv { id });
+                        let mut sink = [0u8; 8];
+                        if let Ok(0) = st.read(&mut sink).await {
+                            log.push(Ev::TcpEof { id });
+                        }
                     }
-                    let mut sink = [0u8; 8];
-                    let _ = st.read(&mut sink).await;
                 });
             }
         });
@@ -243,6 +248,13 @@ async fn host_program(log: Log<Ev>, me: usize, s: Scn) -> turmoil::Result {
                                 log.push(Ev::ConnRet { id, ok: true, kind: String::new() });
                                 log.push(Ev::DataSent { src: me, dst, id });
                                 let _ = st.try_write(&id.to_le_bytes());
+                                let mut st = st;
+                                if id % 2 == 0 {
+                                    // half of the probes also close their write side: the FIN is a message too
+                                    use tokio::io::AsyncWriteExt;
+                                    log.push(Ev::FinSent { src: me, dst, id });
+                                    let _ = st.shutdown().await;
+                                }
                                 std::future::pending::<()>().await;
                                 drop(st);
                             }
@@ -345,6 +357,7 @@ enum Key {
     Udp(usize, usize, u64),
     Syn(u64),
     Data(u64),
+    Fin(u64),
 }
 
 fn scenario(s: Scn, tag: &str) -> ScenarioOut {
@@ -462,6 +475,7 @@ fn scenario(s: Scn, tag: &str) -> ScenarioOut {
             Ev::Sent { src, dst, seq, .. } => on_send(&mut msgs, &held_link, Key::Udp(*src, *dst, *seq), *src, *dst, p, *step),
             Ev::ConnCall { src, dst, id } => on_send(&mut msgs, &held_link, Key::Syn(*id), *src, *dst, p, *step),
             Ev::DataSent { src, dst, id } => on_send(&mut msgs, &held_link, Key::Data(*id), *src, *dst, p, *step),
+            Ev::FinSent { src, dst, id } => on_send(&mut msgs, &held_link, Key::Fin(*id), *src, *dst, p, *step),
             Ev::Hold { x, y, .. } => {
                 for a in x {
                     for b in y {
@@ -524,6 +538,7 @@ fn scenario(s: Scn, tag: &str) -> ScenarioOut {
             }
             Ev::Recv { src, dst, seq, .. } => recv_pos.entry(Key::Udp(*src, *dst, *seq)).or_default().push((p, *step)),
             Ev::TcpRecv { id } => recv_pos.entry(Key::Data(*id)).or_default().push((p, *step)),
+            Ev::TcpEof { id } => recv_pos.entry(Key::Fin(*id)).or_default().push((p, *step)),
             Ev::ConnRet { id, ok, kind } => {
                 conn_ret.insert(*id, (p, *ok, kind.clone()));
                 if *ok {
@@ -559,7 +574,7 @@ fn scenario(s: Scn, tag: &str) -> ScenarioOut {
                 }
                 out.count("links_snapshots", 1);
                 out.count("links_listed_messages", (udp.len() + tcp_data.len() + syns.len()) as u64);
-                let must_ud: Vec<&Key> = must.iter().filter(|k| !matches!(k, Key::Syn(_))).collect();
+                let must_ud: Vec<&Key> = must.iter().filter(|k| !matches!(k, Key::Syn(_) | Key::Fin(_))).collect();
                 for k in &must_ud {
                     if !listed.contains(k) {
                         violations.push((
@@ -617,6 +632,7 @@ fn scenario(s: Scn, tag: &str) -> ScenarioOut {
             Key::Udp(..) => "udp",
             Key::Syn(_) => "syn",
             Key::Data(_) => "tcpdata",
+            Key::Fin(_) => "fin",
         };
         let rs = recv_pos.get(k).cloned().unwrap_or_default();
         if m.ever_held {
@@ -953,6 +969,6 @@ fn fin() -> Finish<'static> {
             "capacities exceed the number of held messages, receivers drain continuously".into(),
         ],
         min_distinct: 100,
-        required_counters: vec!["udp_held", "syn_held", "tcpdata_held", "release_groups_multi", "manual_deliveries", "links_listed_messages", "unheld_window_checks", "host_code_calls"],
+        required_counters: vec!["udp_held", "syn_held", "tcpdata_held", "fin_held", "release_groups_multi", "manual_deliveries", "links_listed_messages", "unheld_window_checks", "host_code_calls"],
     }
 }
